@@ -115,6 +115,12 @@ pub fn key_pool() -> Vec<Vec<u8>> {
         b"zzzzzzzz".to_vec(),
         b"zzzzzzzy".to_vec(),
         vec![b'L'; 300],
+        // lengths at which a length prefix grows to two bytes: 127/128 for the user key (WAL batch
+        // elements), 119/120 for the internal key = user key + 8 (table block entries)
+        vec![b'M'; 119],
+        vec![b'M'; 120],
+        vec![b'N'; 127],
+        vec![b'N'; 128],
         vec![0x80, 0x81, 0xfe],
         b"\xc3\x28".to_vec(),
     ];
